@@ -83,7 +83,7 @@ def _states(deep):
     out.append(('paused2', ['A'], [dict(bus='A', pat='X', name='hxA', prog=[('pause',), ('pause',)])], [('disp', 'A', 'X', 'ff'), ('pause',), ('pause',)]))
     for cb in 'AB':
         names = ['A', 'B'] if cb == 'B' else ['A']
-        hs = [dict(bus='A', pat='P', name='hp', prog=[('disp', cb, 'C', 'await'), ('pause',)]), dict(bus=cb, pat='C', name='hc', prog=[('pause',)]), hx('A')]
+        hs = [dict(bus='A', pat='P', name='hp', prog=[('disp', cb, 'C', 'await'), ('pause',), ('pause',)]), dict(bus=cb, pat='C', name='hc', prog=[('pause',)]), hx('A')]
         out.append((f'awaiting_child_{cb}', names, hs, [('disp', 'A', 'P', 'ff'), ('disp', 'A', 'X', 'ff'), ('pause',)]))
     hs = [dict(bus='A', pat='P', name='hp', prog=[('disp', 'B', 'C', 'ff'), ('pause',)]), dict(bus='B', pat='C', name='hc', prog=[('pause',)]), hx('A'), hx('B')]
     out.append(('two_buses', ['A', 'B'], hs, [('disp', 'A', 'P', 'ff'), ('disp', 'B', 'X', 'ff'), ('pause',)]))
@@ -101,16 +101,19 @@ def families(tier):
     for (sname, names, hs, pre), tmo, par in itertools.product(_states(deep), (None, 0, 0.3), (False, True)):
         if par and sname not in ('paused', 'awaiting_child_A', 'raising'):
             continue
-        main = list(pre) + [('stop', 'A', tmo), ('pause',), ('disp', 'A', 'X8', 'ff')] if False else list(pre) + [('stop', 'A', tmo), ('pause',)]
-        for order in ([names] if len(names) == 1 else [names, names[::-1]]):
-            out.append(dict(prop='C16', family='c16.stop', id=f'c16/stop-{sname}-t{tmo}-p{int(par)}-o{"".join(order)}', cfg=cfg, params=dict(state=sname, tmo=tmo),
-                            scn=dict(buses={b: dict(parallel=par) for b in names}, order=order, handlers=hs, main=main, actors=[], forwards=[], settle=1.5)))
-    for (sname, names, hs, pre), par in itertools.product(_states(deep), (False, True)):
+        main = list(pre) + [('stop', 'A', tmo), ('pause',)]
+        for hist in ((50, None) if sname.startswith('awaiting_child') else (50,)):
+            for order in ([names] if len(names) == 1 else [names, names[::-1]]):
+                out.append(dict(prop='C16', family='c16.stop', id=f'c16/stop-{sname}-t{tmo}-p{int(par)}-h{hist}-o{"".join(order)}', cfg=cfg, params=dict(state=sname, tmo=tmo),
+                                scn=dict(buses={b: dict(parallel=par, hist=hist) for b in names}, order=order, handlers=hs, main=main, actors=[], forwards=[], settle=1.5)))
+    for (sname, names, hs, pre), par, hist in itertools.product(_states(deep), (False, True), (50, None)):
         if par and sname not in ('paused', 'awaiting_child_A', 'raising'):
             continue
+        if hist is None and not sname.startswith('awaiting_child') and sname != 'two_buses':
+            continue
         for order in ([names] if len(names) == 1 else [names, names[::-1]]):
-            out.append(dict(prop='C16', family='c16.shutdown', id=f'c16/shutdown-{sname}-p{int(par)}-o{"".join(order)}', cfg=cfg, params=dict(state=sname, tmo=None), mode='shutdown',
-                            scn=dict(buses={b: dict(parallel=par) for b in names}, order=order, handlers=hs, main=list(pre), actors=[], forwards=[])))
+            out.append(dict(prop='C16', family='c16.shutdown', id=f'c16/shutdown-{sname}-p{int(par)}-h{hist}-o{"".join(order)}', cfg=cfg, params=dict(state=sname, tmo=None), mode='shutdown',
+                            scn=dict(buses={b: dict(parallel=par, hist=hist) for b in names}, order=order, handlers=hs, main=list(pre), actors=[], forwards=[])))
     return out
 
 
